@@ -4,6 +4,7 @@ include!(concat!(env!("OUT_DIR"), "/gram_mods.rs"));
 
 pub mod bridge;
 pub mod checks;
+pub mod cli;
 pub mod dterm;
 pub mod gens;
 pub mod refs;
